@@ -15,6 +15,7 @@ At the end of the file (tree model of C15/C01, `Paroxy.Flat`): `C02_node_span`, 
 import Paroxy.Proofs.HintsSpans
 import Paroxy.Proofs.HintsPrepare
 import Paroxy.Proofs.HintsAllTexts
+import Paroxy.Proofs.HintsSpaced
 import Paroxy.Model.ParseGlue
 import Paroxy.Proofs.NodeSpan
 import Paroxy.Proofs.NodeSpanTree
@@ -57,7 +58,9 @@ theorem C02_hint_spans_centrifugated (src c : Str) (p : Program)
 schedules is a valid line range of the stored source — `1 ≤ start ≤ end ≤ number of lines of the
 stored source`. (The stored source has exactly as many lines as the text the hints were numbered
 on: `remove_hints` swallows no line break and strips no end line; no hypothesis on emptiness nor on
-the characters of the text is needed since 80f9da8.) -/
+the characters of the text is needed since 80f9da8. Since F46 `remove_hints` deletes `# paroxython:`
+comments with or without a space after the colon: that it never deletes a line `centrifugate_hints`
+kept rests on the normalisation of the markers, `prepare_spaced`.) -/
 theorem C02_hint_spans (src : Str) (p : Program) (h : (getProgram O) src = .ok p) :
     ∀ e ∈ p.addition.entries ++ p.deletion.entries, ValidSpan p.source e.2.1 e.2.2 := by
   cases hc : (centrifugate O) ((prepare O) src) with
@@ -73,7 +76,7 @@ theorem C02_hint_spans (src : Str) (p : Program) (h : (getProgram O) src = .ok p
     intro e he
     have := hspans e he
     simp only [ValidSpan] at this ⊢
-    rw [hps, lineCount_stored _ c hc]
+    rw [hps, lineCount_stored _ c (prepare_spaced src) hc]
     exact this
 
 /-- The input of the repaired finding F07d (a separator 0x1c in front of a hint comment on the first
